@@ -83,6 +83,13 @@ class OutputSuppressionContext:
             for fd in (0, 1, 2):
                 with contextlib.suppress(OSError):
                     self._saved_fds[fd] = os.dup(fd)
+            if OutputSuppressionContext._null_file.closed:
+                # A previously executed test case closed the shared stream, e.g.,
+                # via ``sys.stdout.close()``; without a fresh one every later
+                # ``print`` of the SUT raises ``ValueError``.
+                OutputSuppressionContext._null_file = open(  # noqa: PLW1514, PTH123, SIM115
+                    os.devnull, mode="w"
+                )
             sys.stdout = self._null_file
             sys.stderr = self._null_file
 
